@@ -32,14 +32,14 @@ type c08Cfg struct {
 	Writes    int
 	SnapCount uint64
 	CatchUp   uint64
-	ClientAt  int // node the writer is connected to
+	ClientAt  int  // node the writer is connected to
 	NoList    bool // history variant without list values
 }
 
 type c08Plan struct {
-	At     int   // crash opportunity index (-1: no crash; reference run)
-	Nodes  []int // nodes to kill
-	Order  []int // restart order
+	At    int   // crash opportunity index (-1: no crash; reference run)
+	Nodes []int // nodes to kill
+	Order []int // restart order
 }
 
 type c08Out struct {
